@@ -432,9 +432,10 @@ class TeePeer(AsyncIterator[T]):
             Tuple[AsyncIterator[T], Deque[T], List[Deque[T]]]
         ] = (iterator, buffer, peers)
 
-    def __anext__(self) -> Awaitable[T]:
+    async def __anext__(self) -> T:
+        # runs only once the awaitable is actually started: the peer then owns its cleanup
         self._cleanup_args = None
-        return self._peer.__anext__()
+        return await self._peer.__anext__()
 
     async def aclose(self) -> None:
         if self._cleanup_args is not None:
